@@ -315,6 +315,35 @@ def run_history(res, ctx, root, rng, hidx, max_steps, con):
         res.sample = {"history": sig, "final_copyrights": sorted(prev_c), "final_licences": sorted(prev_l)}
 
 
+def run_batch(res, ctx, root, rng):
+    """One invocation over several files whose headers agree in notices and licences and differ in contributors only: each file
+    keeps what *it* declared (nothing computed for one file may be reused for the next)."""
+    d = root / "batch"
+    d.mkdir()
+    own = {}
+    ext, cm = rng.choice([(".py", "# "), (".c", "// "), (".sh", "# ")])
+    for j, who in enumerate(["Alice Example", "Bob Example", "Carol Example", None]):
+        f = d / f"twin{j}{ext}"
+        lines = ["SPDX-FileCopyrightText: 2019 Same Holder", "SPDX-License-Identifier: MIT"] + ([f"SPDX-FileContributor: {who}"] if who else [])
+        f.write_text("".join(cm + ln + "\n" for ln in lines) + "\nK code\n")
+        own[f] = {who} if who else set()
+    extra = rng.choice([["--contributor", "Dora Added"], ["-c", "Extra Holder", "--year", "2022"], ["-l", "0BSD"]])
+    recursive = rng.random() < 0.5
+    r = run_cli(["--no-multiprocessing", "--root", str(root), "annotate"] + extra + (["-r", str(d)] if recursive else [str(f) for f in own]), cwd=str(root))
+    res.n += 1
+    if r.escaped or r.exit_code != 0:
+        res.violation("batch-request-refused", f"annotate exit {r.exit_code} {r.exc_type} on a plain batch", **r.brief())
+        return
+    for f, who in own.items():
+        got = annot.read_contributors(f) or set()
+        want = set(who) | ({"Dora Added"} if "--contributor" in extra else set())
+        if not want <= got or (got - want):
+            res.violation("batch:contributors-of-another-file", f"{f.name}: contributors {sorted(got)} after one run over {len(own)} files, it declared "
+                          f"{sorted(who)} before ({' '.join(extra)})", text=f.read_text()[:400])
+            return
+    res.cell("batch:twins-differing-in-contributors")
+
+
 def run_case(case, ctx):
     res = Res()
     rng = rng_for(ctx.seed, "c09", case["k"])
@@ -347,6 +376,7 @@ def run_case(case, ctx):
     try:
         for i in range(case["n"]):
             run_history(res, ctx, root, rng, i, 6 if ctx.tier == "quick" else 12, con)
+        run_batch(res, ctx, root, rng)
         ctx.count("contract_evals_create_header", con.evals.get("reuse.header.create_header", 0))
         if not attached:
             ctx.count("contract_skipped")
